@@ -145,6 +145,14 @@ def run(model, col, tier):
                         if isinstance(x, ast.Call) and last_attr(x) == "append" and unparse(x.func.value) == idxn and x.args and isinstance(x.args[0], ast.Subscript) \
                                 and _is_table(x.args[0].value) and unparse(x.args[0].slice) == lv_:
                             in_order = True
+            # the same list written as a comprehension over the mask
+            for e in evs:
+                if e.kind == "stmt" and isinstance(e.node, ast.Assign) and unparse(e.node.targets[0]) == idxn and isinstance(e.node.value, ast.ListComp):
+                    lc = e.node.value
+                    g = lc.generators[0]
+                    if len(lc.generators) == 1 and not g.ifs and _rt42(g.iter, env42) == MASK and isinstance(lc.elt, ast.Subscript) and _is_table(lc.elt.value) \
+                            and unparse(lc.elt.slice) == unparse(g.target):
+                        in_order = True
             col.check(len(args) == 4 and args[1] == args[2] == VAL and f"{np42}.GetType()" in args[0], "R04.2", f"{LOWER}::v_MemberAccessExpression swizzle read operands",
                       "ShuffleInstruction(type of the swizzle, value, value, indices)", f"read shuffle is built as {args}", LOWER, c)
             col.check(in_order or any(e.kind == "loop" and e.val == 0 for e in evs), "R04.2", f"{LOWER}::v_MemberAccessExpression swizzle read indices",
